@@ -72,7 +72,7 @@ def strategy_(draw, tier):
                                              "envelope-decrypt", "cli", "cli-existing-output", "cli-wrong-key", "vmtar-list", "vmtar-extract", "keystore",
                                              "vmtar-modes", "vhdx-abs-parent", "hyperv-dirty", "rw-handles", "envelope-decrypt-big", "cli-big",
                                              "cli-output-dir", "cli-output-evidence-dir", "cli-relative-output", "hyperv-fileobject",
-                                             "vmdk-rw-descriptor-handle", "vmtar-empty"]),
+                                             "vmdk-rw-descriptor-handle", "vmtar-empty", "vmtar-odd-handles", "hdd-backup-descriptor"]),
                             min_size=2, max_size=10))
         return {"workload": w, "ops": ops, "n": draw(st.integers(0, 1 << 20))}
     mod = importlib.import_module(f"hv.props.{w.lower()}")
@@ -164,6 +164,17 @@ def build_evidence(d, n):
             "shots": [{"guid": g1, "parent": bhdd.NULL_GUID}, {"guid": bhdd.DEFAULT_TOP, "parent": g1}]}))
     info["hdd"] = root
     info["hdd-guid"] = g1
+    # .hdd directories caught in the middle of a descriptor update: only the .Backup copy, or an empty descriptor next to it
+    desc_text = open(os.path.join(root, "DiskDescriptor.xml")).read()
+    info["hdd-broken"] = []
+    for nm, empty in (("half1.hdd", False), ("half2.hdd", True)):
+        hb = os.path.join(d, "p.pvm", nm)
+        os.makedirs(hb)
+        with open(os.path.join(hb, "DiskDescriptor.xml.Backup"), "w") as f:
+            f.write(desc_text)
+        if empty:
+            open(os.path.join(hb, "DiskDescriptor.xml"), "w").close()
+        info["hdd-broken"].append(hb)
     # envelope + keystore
     ks = {"key_id": bytes(range(16)).hex(), "data1": bytes(range(8)).hex(), "data2": bytes(range(8, 16)).hex()}
     text, key, _id = benv.keystore_text(ks)
@@ -311,6 +322,38 @@ def run_scenario(spec, out):
                         with open(allowed, "rb") as f:
                             if f.read() != info["payload_big"]:
                                 raise AssertionError("CLI output differs from the payload (> 4 MiB)")
+                    elif op == "hdd-backup-descriptor":
+                        for hb in info["hdd-broken"]:
+                            try:
+                                HDD(Path(hb)).open()
+                            except Exception:  # noqa: BLE001 - refusing is fine, repairing the evidence is not
+                                pass
+                    elif op == "vmtar-odd-handles":
+                        # readable handles whose mode attribute does not say "r": a spooled temporary file, append / exclusive-create files
+                        import tempfile as _tf
+
+                        gz = open(info["vmtar-gz"], "rb").read()
+                        raw_ = open(info["vmtar"], "rb").read()
+                        for content in (gz, raw_):
+                            handles = [_tf.SpooledTemporaryFile(max_size=1 << 22)]
+                            handles[0].write(content)
+                            pa = os.path.join(outdir, f"app-{len(content)}.bin")
+                            with open(pa, "wb") as f:
+                                f.write(content)
+                            handles.append(open(pa, "a+b"))
+                            for h in handles:
+                                for opener in (vmtar.open, vmtar.VisorTarFile):
+                                    h.seek(0)
+                                    try:
+                                        t = opener(fileobj=h)
+                                        t.getmembers()
+                                    except (tarfile.TarError, OSError, EOFError, ValueError):
+                                        pass
+                                    h.seek(0)
+                                    if h.read() != content:
+                                        raise AssertionError("handle: the bytes behind a caller-supplied handle changed")
+                                h.close()
+                            os.remove(pa)
                     elif op == "vmtar-empty":
                         for pth in info["vmtar-empty"]:
                             for how in ("name", "handle", "rw-handle"):
@@ -436,7 +479,7 @@ def run_scenario(spec, out):
                 _v, err = lib(step)
                 if err is not None and not (op == "cli-wrong-key"):
                     if isinstance(err.exc, AssertionError):
-                        out.fail("mismatch|cli-output", str(err.exc))
+                        out.fail("mutated|supplied-handle" if str(err.exc).startswith("handle:") else "mismatch|cli-output", str(err.exc))
                     # other exceptions are not this property's business (functional checks live elsewhere)
             events = list(state["events"])
             opens = dict(state["opens"])
